@@ -250,6 +250,34 @@ void build_universe(VU &u) {
         p.SetPointerToValue(u.v[u.v.size() - 4].get());
         u.add(Memory::Move(p), "ptr->d-0.0", 3, 0.0L);
     }
+    // objects and arrays that have lost a member (a removed slot stays behind until Compress): the operators agree with one another
+    // whatever they count
+    {
+        Value<char> o{ValueType::Object};
+        o["k1"] = 1;
+        o["k2"] = 2;
+        o["k3"] = 3;
+        o.Remove("k2");
+        u.add(Memory::Move(o), "object3-one-removed");
+        Value<char> o2{ValueType::Object};
+        o2["k1"] = 1;
+        o2["k3"] = 3;
+        u.add(Memory::Move(o2), "object2b");
+        Value<char> o3{ValueType::Object};
+        o3["a"] = 1;
+        o3["b"] = 2;
+        o3["c"] = 3;
+        u.add(Memory::Move(o3), "object3");
+        Value<char> a{ValueType::Array};
+        a += 1;
+        a += 2;
+        a += 3;
+        a.RemoveIndex(1);
+        u.add(Memory::Move(a), "array3-one-removed");
+        Value<char> p;
+        p.SetPointerToValue(u.v[u.v.size() - 4].get());
+        u.add(Memory::Move(p), "ptr->object3-one-removed");
+    }
 }
 
 int value_ref(const VU &u, size_t i, size_t j) { // reference order where the property states one, else 2 (axioms only)
